@@ -382,7 +382,12 @@ class ClassUtils:
         for items in grouped.values():
             total = len(items)
             if total == 2 and not items[0].is_enumeration:
+                names = [item.name for item in items]
                 cls.rename_attribute_by_preference(*items)
+                for item, name in zip(items, names):
+                    if item.name != name:
+                        reserved = {x.slug for x in target.attrs if x is not item}
+                        item.name = cls.unique_name(item.name, reserved)
             elif total > 1:
                 cls.rename_attributes_by_index(target.attrs, items)
 
